@@ -76,6 +76,21 @@ func scenarios(thorough bool) []scenario {
 			out = append(out, scenario{l, 2, -1, st})
 		}
 	}
+	// four tasks on ONE key, every read/write pattern (owner, readers that outlive it, a later writer ...)
+	for m := 0; m < 16; m++ {
+		var l [][]state.Permissions
+		for t := 0; t < 4; t++ {
+			p := state.Read
+			if m>>t&1 == 1 {
+				p = state.Write
+			}
+			l = append(l, []state.Permissions{p, state.None})
+		}
+		out = append(out, scenario{l, 2, -1, -1})
+		if thorough {
+			out = append(out, scenario{l, 3, -1, -1}, scenario{l, 2, 0, -1}, scenario{l, 2, 1, -1})
+		}
+	}
 	if thorough {
 		// other worker counts
 		for _, l := range lists {
@@ -336,7 +351,7 @@ func main() {
 	r.Cov["distinct_outcomes"] = tot["distinct_outcomes"]
 	r.Cov["pruning_crosscheck"] = map[string]int{"scenarios": tot["crosschecked_scenarios"], "unpruned_executions": tot["crosscheck_unpruned_executions"], "pruned_executions": tot["crosscheck_pruned_executions"]}
 	r.Cov["preemption_bound"] = bound
-	r.Cov["rule"] = "every task list (3 tasks x 2 keys x {none,read,write}, modulo key renaming; failing task at each position; Stop at each position for a subset; thorough: workers 1..3, allocate/all permissions, 4 tasks) x every interleaving of the instrumented executor up to the preemption bound with happens-before fingerprint pruning; non-trivial = complete executions in which >=2 threads touched a common synchronisation object"
+	r.Cov["rule"] = "every task list (3 tasks x 2 keys x {none,read,write}, modulo key renaming; failing task at each position; Stop at each position for a subset; plus every read/write pattern of 4 tasks on one key; thorough: workers 1..3, allocate/all permissions, 4 tasks over 2 keys) x every interleaving of the instrumented executor up to the preemption bound with happens-before fingerprint pruning; non-trivial = complete executions in which >=2 threads touched a common synchronisation object"
 	r.Assumptions = []string{"sequential consistency; unsynchronised accesses are the business of the separate -race pass", "map iteration inside the executor is made deterministic (ascending keys)"}
 	r.Finish()
 }
